@@ -9,6 +9,7 @@ use scale_info::PortableRegistry;
 use serde_json::{json, Value};
 use std::alloc::{GlobalAlloc, Layout, System};
 use std::sync::atomic::{AtomicUsize, Ordering::SeqCst};
+use vh::gen::{near_miss, rand_wide_entry};
 use vh::{guarded, proj, proj::Mode, read_ndjson, Out};
 
 struct Counting;
@@ -173,68 +174,6 @@ fn fault(cases: &str, outp: &str, tracep: &str) {
 }
 
 // ---------------------------------------------------------------------------------------------
-fn rand_str(rng: &mut StdRng) -> String {
-    let pool = ["", "a", "T", "é", "名前", "\u{1F600}", "a b", "\0", "\u{7f}", "r#x", "::", "\"", "\\", "\u{80}", "\u{7ff}", "\u{800}", "\u{ffff}", "\u{10000}", "\u{10ffff}"];
-    match rng.gen_range(0..10) {
-        0..=5 => pool[rng.gen_range(0..pool.len())].to_string(),
-        6 => "x".repeat([63, 64, 65, 300][rng.gen_range(0..4)]),
-        _ => (0..rng.gen_range(1..5)).map(|_| pool[rng.gen_range(0..pool.len())]).collect(),
-    }
-}
-fn rand_id(rng: &mut StdRng) -> u32 {
-    let b = [0u32, 1, 2, 63, 64, 65, 16383, 16384, 16385, (1 << 30) - 1, 1 << 30, u32::MAX - 1, u32::MAX];
-    if rng.gen_bool(0.5) { rng.gen_range(0..8) } else { b[rng.gen_range(0..b.len())] }
-}
-fn w(n: u32) -> Value {
-    proj::num(Mode::Wide, n)
-}
-fn ws(s: &str) -> Value {
-    proj::st(Mode::Wide, s)
-}
-fn rand_docs(rng: &mut StdRng) -> Value {
-    json!((0..[0, 0, 1, 2][rng.gen_range(0..4)]).map(|_| ws(&rand_str(rng))).collect::<Vec<_>>())
-}
-fn rand_opt(rng: &mut StdRng) -> Value {
-    if rng.gen_bool(0.5) { json!([ws(&rand_str(rng))]) } else { json!([]) }
-}
-fn rand_fields(rng: &mut StdRng) -> Value {
-    json!((0..[0, 1, 2, 3][rng.gen_range(0..4)]).map(|_| json!({"name": rand_opt(rng), "ty": w(rand_id(rng)), "tn": rand_opt(rng), "docs": rand_docs(rng)})).collect::<Vec<_>>())
-}
-pub fn rand_wide_entry(rng: &mut StdRng) -> Value {
-    let def = match rng.gen_range(0..10) {
-        0 | 1 => json!({"tag": "composite", "fields": rand_fields(rng)}),
-        2 | 3 => json!({"tag": "variant", "variants": (0..rng.gen_range(0..3)).map(|_| json!({"name": ws(&rand_str(rng)), "fields": rand_fields(rng), "index": rng.gen_range(0..256), "docs": rand_docs(rng)})).collect::<Vec<_>>()}),
-        4 => json!({"tag": "sequence", "ty": w(rand_id(rng))}),
-        5 => json!({"tag": "array", "len": w(rand_id(rng)), "ty": w(rand_id(rng))}),
-        6 => json!({"tag": "tuple", "tys": (0..rng.gen_range(0..4)).map(|_| w(rand_id(rng))).collect::<Vec<_>>()}),
-        7 => json!({"tag": "primitive", "prim": proj::PRIMS[rng.gen_range(0..15)].0}),
-        8 => json!({"tag": "compact", "ty": w(rand_id(rng))}),
-        _ => json!({"tag": "bitsequence", "store": w(rand_id(rng)), "order": w(rand_id(rng))}),
-    };
-    json!({"id": w(rand_id(rng)), "path": (0..rng.gen_range(0..3)).map(|_| ws(&rand_str(rng))).collect::<Vec<_>>(),
-        "params": (0..[0, 0, 1, 2][rng.gen_range(0..4)]).map(|_| json!({"name": ws(&rand_str(rng)), "ty": if rng.gen_bool(0.6) { json!([w(rand_id(rng))]) } else { json!([]) }})).collect::<Vec<_>>(),
-        "def": def, "docs": rand_docs(rng)})
-}
-/// a registry differing from `r` in exactly one small respect (near miss, for injectivity)
-fn near_miss(rng: &mut StdRng, r: &Value) -> Value {
-    let mut r = r.clone();
-    let a = r.as_array_mut().unwrap();
-    if a.is_empty() {
-        a.push(rand_wide_entry(rng));
-        return r;
-    }
-    let i = rng.gen_range(0..a.len());
-    match rng.gen_range(0..6) {
-        0 => a[i]["docs"] = json!([ws("")]),
-        1 => a[i]["path"].as_array_mut().unwrap().push(ws("")),
-        2 => a[i]["id"] = w(rand_id(rng)),
-        3 => { a.remove(i); }
-        4 => { let e = a[i].clone(); a.push(e); }
-        _ => a[i] = rand_wide_entry(rng),
-    }
-    r
-}
-
 fn record(seed: u64, count: usize, path: &str) {
     let mut rng = StdRng::seed_from_u64(seed);
     let mut out = Out::create(path);
